@@ -388,8 +388,11 @@ class Interp(object):
         return {"issues": first, "again": again, "rerun": rerun}
 
     def op_doc_validate(self, d):
+        from odml.validation import Validation
         first = self._issues(d.validate().errors)
-        return {"issues": first, "again": self._issues(d.validate().errors), "rerun": first}
+        # Document.validate() and Validation(doc) are two observation points of one validation
+        return {"issues": first, "again": self._issues(d.validate().errors),
+                "rerun": self._issues(Validation(d).errors)}
 
     def op_validate_keep(self, x):
         """A Validation the caller keeps (to run it again later, after edits)."""
@@ -405,13 +408,18 @@ class Interp(object):
         if not self.U.validations:
             raise Skip("no kept validation")
         val, x = self.U.validations[k % len(self.U.validations)]
+        text = fresh_text = None
         if report:
-            val.report()
+            text = val.report()
         else:
             val.run_validation()
         kept = self._issues(val.errors)
-        fresh = self._issues(Validation(x).errors)
-        return {"issues": kept, "again": fresh, "rerun": kept}
+        fresh_val = Validation(x)
+        fresh = self._issues(fresh_val.errors)
+        if report:
+            fresh_text = fresh_val.report()
+        return {"issues": kept, "again": fresh, "rerun": kept, "report": text,
+                "report_fresh": fresh_text}
 
     def op_validate_optional(self, x, rule="section_repository_present"):
         """A custom validation that applies one of the library's own optional rules."""
